@@ -124,6 +124,31 @@ def open_with_flags(ctx, out):
                               f"but its end time {impl.us(n.end_timestamp)} µs is not the time of that tick ({float(exu):.1f} µs)",
                               {"op": "openflags", "text": text, "len": n.longest_sustain, "self": True}, observed=impl.us(n.end_timestamp), promised=float(exu))
             texts.append((text, {"op": "chart", "text": text, "want": None}))
+    # lane lines followed by an open-index line at the same tick (an "open chord" as some converters write it): the event is the note of
+    # its lanes — the open index names no lane — and its sustain reports those lanes' written lengths, whatever length the open line carries
+    for lanes_ in ([(0, 192)], [(1, 96), (2, 0)], [(0, 50), (4, 50)], [(3, 0)]):
+        for l7 in (0, 300):
+            for flag_ in ("", "  48 = N 6 0\n"):
+                body = "".join(f"  48 = N {i} {ln}\n" for i, ln in lanes_) + flag_ + f"  48 = N 7 {l7}\n"
+                text = HEAD + body + "  700 = N 2 0\n}\n"
+                rp = {"op": "openflags", "text": text, "len": max(ln for _, ln in lanes_)}
+                texts.append((text, {"op": "chart", "text": text, "want": None}))
+                lens_ = {ln for _, ln in lanes_}
+                mx_ = max(lens_)
+                rp["want"] = [str(mx_) if len(lens_) == 1 else str(tuple(dict(lanes_).get(i) for i in range(5))), mx_, 48 + mx_]
+                c, e, _ = impl.parse(text)
+                out.case("L7" + fw.h(text), True, None, tags=["lanes-then-open"])
+                if c is None:
+                    out.violation("lanesopen-" + fw.h(text), f"lane lines followed by an open-index line raised {impl.err_name(e)}", rp, observed=impl.err_name(e), promised="parses")
+                    continue
+                n = c.instrument_tracks[ins[0]][dif[3]].note_events[1]
+                lens = {ln for _, ln in lanes_}
+                want_s = str(lens.pop()) if len(lens) == 1 else str(tuple(dict(lanes_).get(i) for i in range(5)))
+                mx = max(ln for _, ln in lanes_)
+                obs, want = [str(n.sustain), n.longest_sustain, n.end_tick], [want_s, mx, 48 + mx]
+                if obs != want:
+                    out.violation("lanesopen-" + fw.h(text), f"lanes {lanes_} followed by `N 7 {l7}`: sustain/longest/end tick {obs}, the lanes' written lengths give {want}",
+                                  rp, observed=obs, promised=want)
     # the model must agree with the code on every one of these layouts (the finding included)
     a, b = common.run_charts([(t, None) for t, _ in texts])
     for (t, rp), x, y in zip(texts, a, b):
@@ -248,6 +273,8 @@ def replay(ctx, data):
         if data.get("self"):
             exu, gi = gen.exact_us(192, [(0, 120000), (96, 60000)], n.end_tick)
             return n.end_tick != n.tick + n.longest_sustain or abs(impl.us(n.end_timestamp) - exu) > (gi + 1) * TOL, [obs, impl.us(n.end_timestamp)]
+        if "want" in data:
+            return obs != data["want"], obs
         return obs != [str(data["len"]), data["len"], 48 + data["len"]], obs
     if data.get("mirror"):
         c, e, _ = impl.parse(data["text"])
